@@ -162,11 +162,17 @@ def impl_hist(p):
     a0 = init_attrs(cls, p["data0"])
     o = build(cls, a0)
     obs = []
+    ncall = 0
     for op in p["ops"]:
         err = 0
         psd = None
         try:
-            psd = apply_op(o, op)
+            if op[0] == "call":
+                ncall += 1
+            if op[0] == "call" and ncall % 2 == 0:
+                o.run()                       # the documented synonym of calling the object
+            else:
+                psd = apply_op(o, op)
         except AssertionError:
             err = 1
         obs.append({"err": err, "sides": SIDE_CODE[o.sides], "nfft": o.NFFT, "df": o.df, "flen": len(o.frequencies()), "psd": psd,
